@@ -265,5 +265,8 @@ _orig_rand_scalar = rand_scalar
 
 def rand_scalar(rng, raw_ok=True):  # noqa: F811
     if NUMERIC_MODE and rng.random() < 0.9:
-        return rng.choice([1723544132228102912, 17, "1723544132228219285", "42", 0, "1_000", " 7 ", "+5", "12.0"])
+        # decimal strings of different lengths (a later instant can be the lexicographically smaller string), ints, and
+        # strings pydantic does / does not accept as integers
+        return rng.choice([1723544132228102912, 17, "1723544132228219285", "42", 0, "1_000", " 7 ", "+5", "12.0",
+                           "999", "1000", "99999999999", "100000000000", "5", "1723544132228219285", "999"])
     return _orig_rand_scalar(rng, raw_ok)
